@@ -5,6 +5,7 @@ package c05
 import (
 	"fmt"
 	"sort"
+	"sync"
 
 	"cedarverif/internal/core"
 	"cedarverif/internal/kit"
@@ -25,17 +26,42 @@ func run(c *core.Ctx) {
 	gens := []string{"Gen_C05_single_quick.cfg", "Gen_C05_resume_quick.cfg"}
 	if c.Thorough() {
 		mc = "MC_C05.cfg"
-		gens = []string{"Gen_C05_single_thorough.cfg", "Gen_C05_resume_thorough.cfg", "Gen_C05_two.cfg"}
+		gens = []string{"Gen_C05_single_thorough.cfg", "Gen_C05_resume_thorough.cfg"}
 	}
-	if kit.ModelCheck(c, "Server.tla", mc, tlc.Options{Workers: 16}) == nil {
+	// the model check and the generators are independent TLC runs: run them side by side
+	var wg sync.WaitGroup
+	wg.Add(1)
+	go func() {
+		defer wg.Done()
+		kit.ModelCheck(c, "Server.tla", mc, tlc.Options{Workers: 12})
+	}()
+	parts := make([][]*srvreplay.Scenario, len(gens))
+	for gi, g := range gens {
+		wg.Add(1)
+		go func(gi int, g string) {
+			defer wg.Done()
+			parts[gi] = srvreplay.Parse(c, kit.Generate(c, "Gen_Server.tla", g, tlc.Options{}))
+		}(gi, g)
+	}
+	// thorough: seeded random walks through two arbitrary connections (3 commands
+	// each, 2 reconfigurations in between) on top of the exhaustive sets
+	var walks []*srvreplay.Scenario
+	if c.Thorough() {
+		wg.Add(1)
+		go func() {
+			defer wg.Done()
+			raws := kit.Generate(c, "Gen_Server.tla", "Gen_C05_two.cfg", tlc.Options{Simulate: "num=6000", Depth: 40, Seed: c.Seed})
+			walks = srvreplay.Parse(c, kit.Dedupe(raws))
+		}()
+	}
+	wg.Wait()
+	if c.IsBroken() {
 		return
 	}
+	c.Set("random_walks", len(walks))
 	var scs []*srvreplay.Scenario
-	for _, g := range gens {
-		part := srvreplay.Parse(c, kit.Generate(c, "Gen_Server.tla", g, tlc.Options{}))
-		if c.IsBroken() {
-			return
-		}
+	scs = append(scs, walks...)
+	for _, part := range parts {
 		for i, sc := range part {
 			if i < 2 {
 				c.Sample(sc)
@@ -67,6 +93,9 @@ func run(c *core.Ctx) {
 		if st.Refusals == 0 {
 			c.Broken("no refusal was observed: the check would be vacuous")
 		}
+	}
+	if c.Thorough() && !c.IsBroken() {
+		srvreplay.RepoTestTraces(c)
 	}
 	c.Set("exhaustive", true)
 	c.Set("rule", "behaviours = every input script of Gen_Server within the bounds (first command with every client kind x level x identity, raw path, follow-ons; fresh handshake + reconfiguration + reconnect-and-resume with every command), enumerated by TLC; each script is executed against a real server.Server and the recorded trace is accepted or rejected by TLC against the permissive Server specification; distinct = distinct script; non-trivial = at least one handler invocation or refusal observed")
